@@ -52,12 +52,15 @@ def with_bots():
 class Schema:
     '''the "software": tasks -> algorithms -> state vectors -> values with versions'''
 
-    def __init__(self, rng, n_algs=4):
+    def __init__(self, rng, n_algs=4, wide=False):
         self.algs = {}  # (task, alg) -> {'ver': [..], 'svs': {svn: {'ver': [...], 'vals': {vn: ver}}}}
         tasks = rng.sample(NAMES['task'], rng.randint(1, 3))
+        # wide: enough algorithms that catalogue ids reach two digits (id 1 is a decimal prefix of 10..19)
+        names = NAMES['alg'] + (['alg10', 'abc', 'b', 'al2', 'alg_y', 'a2', 'x', 'alg_x2', 'ba', 'a_'] if wide else [])
+        n_algs = min(n_algs, len(names) * len(tasks))
         while len(self.algs) < n_algs:
             tk = rng.choice(tasks)
-            an = rng.choice(NAMES['alg'])
+            an = rng.choice(names)
             if (tk, an) in self.algs:
                 continue
             svs = {}
